@@ -58,6 +58,9 @@ pub struct Vidya {
 	last_input: ValueType,
 	last_output: ValueType,
 	window: Window<ValueType>,
+	/// number of the most recent consecutive inputs that did not change the value (saturating)
+	#[cfg_attr(feature = "serde", serde(default))]
+	flat: PeriodType,
 }
 
 impl Vidya {
@@ -83,6 +86,7 @@ impl Method for Vidya {
 				last_input: input,
 				last_output: input,
 				window: Window::new(length, 0.),
+				flat: length,
 			}),
 		}
 	}
@@ -105,6 +109,20 @@ impl Method for Vidya {
 		// (up to infinity or NaN when the sums cancel each other)
 		self.up_sum = self.up_sum.max(0.);
 		self.dn_sum = self.dn_sum.max(0.);
+
+		// When every change inside the window is zero, both sums are exactly zero, whatever residue the
+		// incremental updates have left in them. Otherwise the test below would be decided by that residue
+		// and the output after a flat stretch would depend on what happened long before it.
+		self.flat = if change == 0. {
+			self.flat.saturating_add(1)
+		} else {
+			0
+		};
+
+		if self.flat >= self.window.len() {
+			self.up_sum = 0.;
+			self.dn_sum = 0.;
+		}
 
 		self.last_output = if self.up_sum != 0. || self.dn_sum != 0. {
 			let cmo = ((self.up_sum - self.dn_sum) / (self.up_sum + self.dn_sum)).abs();
